@@ -54,6 +54,20 @@ def check(run: Run) -> None:
            "if a:\n    b\n  c\n", "if a:\n\tb\n        c\n", "x = 'a\n", "x = f'{a'\n", "x = f'{a!z}'\n", "x = 0777\n", "x = 1__0\n", 'x = (\n"a" "b\n']
     for s in BAD + corpus.invalid_seeds():
         progs.append({"src": s, "mode": "exec", "need": 0, "origin": "rejected"})
+    KINDS = ["async def f():\n    await g()\n", "async def f(a, /, b, *c, d=1, **e) -> int:\n    async with x as y:\n        pass\n    async for i in z:\n        pass\n",
+             "@d\nasync def f(): return [i async for i in y]\n", "def f(a, /, b, *c, d=1, **e) -> int:\n    return a\n", "@d(1)\nclass C(B, metaclass=M):\n    x: int = 1\n",
+             "class C:\n    async def m(self):\n        yield 1\n", "with a as b, c as d:\n    pass\n", "with (a as b, c as d):\n    pass\n",
+             "try:\n    a\nexcept E as e:\n    b\nelse:\n    c\nfinally:\n    d\n", "match p:\n    case [1, *r] if r:\n        pass\n    case {'k': v, **kw}:\n        pass\n    case C(a, b=1) | None:\n        pass\n",
+             "for i, (j, k) in y:\n    continue\nelse:\n    pass\n", "while a:\n    break\nelse:\n    pass\n", "global g\nnonlocal n\n", "import a.b as c, d\nfrom .e import (f as g, h)\n",
+             "lambda a, /, b=1, *c, d, **e: (yield)\n", "x = [i for i in y if i async for j in k]\n", "del a, b[0], c.d\n", "assert a, 'm'\nraise E from c\n", "x: int\ny: list[int] = []\n(z): int = 1\n",
+             "a = b = c\na += 1\na @= b\na //= 2\n", "print(*a, **b, c=1)\n", "x = a if b else c\ny = not a or b and c\nz = a < b <= c != d is not e not in f\n", "w = (yield from g)\nv = await h\n",
+             "s = a[1:2, ::3, ...]\nt = a[b:c]\nu = *a, *b\n", "d = {**a, 'k': 1, **b}\ne = {*a, 1}\nf = {k: v for k, v in z}\n", "n = (m := 1)\n", "$(ls -l) if $HOME else ![echo @(x)]\n",
+             "with! c:\n    body\n", "f!(a b)\n", "p = p'/tmp' / pf'{x}'\n", "g = `a.*` + g`*.py`\n", "x = a?\ny = b??\n", "a && b || c\n", "$X = 1\ndel $X\n${'Y'} = 2\n"]
+    for s in KINDS:
+        progs.append({"src": s, "mode": "exec", "need": 0, "origin": "kinds"})
+    for d in range(12, 44):
+        for o, c_ in (("(", ")"), ("[", "]"), ("f(", ")"), ("{1: ", "}")):
+            progs.append({"src": "x = " + o * d + "1" + c_ * d + "\n", "mode": "exec", "need": 0, "origin": "depth-band"})
     # need / validity per program: from CPython's tree when it parses, from the text otherwise
     import ast as _ast
 
